@@ -512,10 +512,33 @@ def _warm_up(rng, s, bc, mach_max, ratio, use=True):
         pass
 
 
+def any_section(rng):
+    """a positive nozzle section law defined for every x: smooth, or STEEP (the section changes by more than itself across one cell of an
+    ordinary mesh: sudden expansion, sharp throat, fast growth) -- for checks in which the section must not matter at all"""
+    a = float(np.round(10 ** rng.uniform(-1, 1), 3)); b = float(np.round(rng.uniform(0.1, 0.95), 2))
+    x1 = float(np.round(rng.uniform(-3, 8), 2)); w = float(10 ** rng.uniform(-3, 0.5))
+    k = str(rng.choice(["tanh-step", "jump", "throat", "quadratic", "exp"]))
+    if k == "tanh-step":
+        f = lambda x: a * (1.0 + b * np.tanh((np.asarray(x, float) - x1) / w))
+    elif k == "jump":
+        f = lambda x: np.where(np.asarray(x, float) < x1, a, a * (1.0 + 10 * b)) + 0.0 * np.asarray(x, float)
+    elif k == "throat":
+        f = lambda x: a * (1.0 - b * np.exp(-((np.asarray(x, float) - x1) / w) ** 2))
+    elif k == "quadratic":
+        f = lambda x: a * (1.0 + ((np.asarray(x, float) - x1) / w) ** 2)
+    else:
+        f = lambda x: a * np.exp(np.clip((np.asarray(x, float) - x1) / max(w, 0.05), -50, 50))
+    f.desc = "%s(a=%g,b=%g,x1=%g,w=%.3g)" % (k, a, b, x1, w)
+    return f
+
+
 def scenario1d(rng, models=MODELS1D, bc=None, recons=ALL_RECONS, meshkinds=MESH_KINDS, ncell=None, nmin=3, nmax=24,
-               dkind=None, fluxes=None, mach_max=2.0, ratio=10.0, source=None, mname=None, section=None, warm=None, intdata=0.0, big=0.0, lscale=0.0):
+               dkind=None, fluxes=None, mach_max=2.0, ratio=10.0, source=None, mname=None, section=None, warm=None, intdata=0.0, big=0.0, lscale=0.0,
+               anysection=0.0):
     s = Scn()
     s.mname = mname or str(rng.choice(models))
+    if anysection and s.mname == "nozzle" and section is None and rng.random() < anysection:
+        section = any_section(rng)
     s.model, s.mparams = make_model(s.mname, rng, source=source, section=section)
     fl = (fluxes or FLUXES)[s.mname]
     s.flux = fl[int(rng.integers(len(fl)))]
